@@ -8,6 +8,7 @@ def run(ctx):
     if ctx.tier == 'thorough': vf.coqchk(ctx, 'C12')
     if not ok: vf.finish(ctx)
     demcheck.campaign(ctx)
+    demcheck.matrix(ctx)
     ctx.nontrivial = set(ctx.hist)
     ctx.samples = ['PKE plaintext lengths 0,1,15,16,17,31,32,33,70,255,256,257,4095,4096,4097; every truncation <= 80 bytes and at the tail; one altered bit at every position <= 120 and at the tail',
                    'header: metadata in {absent, empty, 1, 15, 16, 17, 300 bytes} x authentication data in {absent, empty, "a", "ad", "ad2", 40 bytes} generated x the same six presented; unauthorized key; truncations and altered bytes of the encrypted metadata']
@@ -19,6 +20,11 @@ def run(ctx):
 
 def replay(ctx, path):
     rep = json.load(open(path)); vf.build_harness(ctx)
+    if rep.get('matrix'):
+        demcheck.matrix(ctx, 12)
+        bad = [o for o in ctx.obligations if not o['ok']]
+        for o in bad: print(o['name'][:80], '->', o['detail'])
+        return 1 if bad else 0
     if 'ctx' in rep: cmd = f"PKEDEC 1 {rep['enc']} {rep['ctx'] or 'empty'}"
     else: cmd = f"HDRDEC 1 {rep['enc']} {rep.get('emd','-')} {rep.get('ad','-')}"
     r = subprocess.run([vf.harness_bin('demd')], input=cmd + '\n', capture_output=True, text=True)
